@@ -7,7 +7,7 @@ disabled nothing under the cache directory is read or written; a truncated cache
 from lib import *
 import shutil
 import builtins
-from props.C06 import module_src, gen_graph, TYPES
+from props.C06 import module_src, gen_graph, TYPES, MODS, mod, idx_of
 
 IMPORTS = 'From Tranp Require Import Model.Cache.'
 
@@ -22,7 +22,7 @@ def cold_outputs(cli, p, n, cache_enabled=True):
     shutil.rmtree(cold_dir, ignore_errors=True)
     q = cli.Project(cold_dir, output_dirs=['./out'], cache_enabled=cache_enabled)
     for i in range(n):
-        shutil.copy(p.path('m%d' % i), q.path('m%d' % i))
+        shutil.copy(p.path(mod(i)), q.path(mod(i)))
     r = q.run(force=True)
     out = snapshot_outputs(q)
     shutil.rmtree(cold_dir, ignore_errors=True)
@@ -50,7 +50,7 @@ def cache_kinds(p):
     out = {}
     for f in p.cache_files():
         base = os.path.basename(f)
-        if '/proj/' in '/' + f and base.startswith('m'):
+        if '/proj/' in '/' + f and base.split('-')[0] in MODS:
             mod = base.split('-')[0]
             kind = 'symbols' if '-symbols-' in base else 'ast'
             out[(mod, kind)] = base
@@ -65,7 +65,7 @@ def run(ctx: Ctx) -> None:
     ctx.prove([])
     rnd = ctx.rnd
     root = scratch_cwd()
-    nh = ctx.n(5, 150) * (3 if ctx.broken else 1)
+    nh = ctx.n(6, 150) * (3 if ctx.broken else 1)
     ccases, craw = [], []
     for hidx in range(nh):
         n, shape, imps = gen_graph(rnd)
@@ -73,17 +73,20 @@ def run(ctx: Ctx) -> None:
             n, shape, imps = 3, 'chain', {0: [], 1: [0], 2: [1]}
         if hidx == 1:
             n, shape, imps = 2, 'chain', {0: [], 1: [0]}
-        enabled = rnd.random() < .8 or hidx <= 1
+        if hidx == 2:
+            # two unrelated modules whose names are in prefix relation (m1 / m10), a third one importing the longer name first
+            n, shape, imps = 3, 'prefix-pair', {0: [], 1: [], 2: [1, 0]}
+        enabled = rnd.random() < .8 or hidx <= 2
         proj_dir = os.path.join(root, 'c05_%d' % hidx)
         p = cli.Project(proj_dir, output_dirs=['./out'], cache_enabled=enabled)
         variant = {i: 0 for i in range(n)}
         for i in range(n):
-            p.edit('m%d' % i, module_src(i, imps[i], 0, 0), step=0)
+            p.edit(mod(i), module_src(i, imps[i], 0, 0), step=0)
         hist, ops_model, obs_impl = [], [], []
         edited = set()
         nontrivial = False
         # fixed histories first: the 3-chain edit, and two runs in a row (the second one restores every table from the cache)
-        steps = [('run',), ('edit', 0), ('run',)] if hidx == 0 else [('run',), ('run',), ('edit', 1), ('run',)] if hidx == 1 else None
+        steps = [('run',), ('edit', 0), ('run',)] if hidx == 0 else [('run',), ('run',), ('edit', 1), ('run',)] if hidx == 1 else [('run',), ('edit', 1), ('run',), ('edit', 0), ('run',)] if hidx == 2 else None
         for step in range(len(steps) if steps else rnd.randint(2, 5)):
             if steps:
                 op = steps[step]
@@ -94,7 +97,7 @@ def run(ctx: Ctx) -> None:
                 m = op[1]
                 variant[m] = (variant[m] + rnd.randint(1, len(TYPES) - 1)) % len(TYPES)
                 step = rnd.choice([0.5, 0.25, 1.5])          # half of the edits stay within the same integer second
-                p.edit('m%d' % m, module_src(m, imps[m], variant[m], 0), step=step)
+                p.edit(mod(m), module_src(m, imps[m], variant[m], 0), step=step)
                 hist.append(('edit', m, variant[m], step))
                 ops_model.append('(Edit nat %d %d)' % (m, variant[m]))
                 edited.add(m)
@@ -133,7 +136,7 @@ def run(ctx: Ctx) -> None:
                 rc, cold = cold_outputs(cli, p, n)
                 if warm != cold:
                     bad = sorted(f for f in cold if warm.get(f) != cold[f])
-                    ms = [int(f.rsplit('m', 1)[1][:-2]) for f in bad if '__init__' not in f]
+                    ms = [idx_of(f) for f in bad if '__init__' not in f]
                     dist = [distance(imps, m, e) for m in ms for e in edited if distance(imps, m, e)]
                     sig = 'symbol-cache-stale-transitive' if dist and min(dist) >= 2 else 'warm-differs-from-cold'
                     ctx.violation(sig, 'the output obtained with the left-over caches differs from the output with an empty cache directory (%s)' % sig,
@@ -141,7 +144,7 @@ def run(ctx: Ctx) -> None:
                 if not enabled and (touched or after != before):
                     ctx.violation('disabled-cache-io', 'with caching disabled a cache file was read or written', dict(history=hist, graph=imps, impl_result=dict(touched=touched[:10], new_files=sorted(set(after.values()) - set(before.values())))))
                 # observation for the correspondence: which (module, kind) entries were created or replaced by this run
-                changed = sorted((int(m[1:]), kind) for (m, kind), fn in after.items() if before.get((m, kind)) != fn)
+                changed = sorted((MODS.index(m), kind) for (m, kind), fn in after.items() if before.get((m, kind)) != fn)
                 obs_impl.append(changed)
                 edited = set()
         ctx.case((shape, tuple(sorted(imps.items(), key=str)), tuple(hist), enabled), nontrivial)
@@ -173,7 +176,7 @@ def run(ctx: Ctx) -> None:
     p = cli.Project(proj_dir, output_dirs=['./out'])
     imps = {0: [], 1: [0]}
     for i in range(2):
-        p.edit('m%d' % i, module_src(i, imps[i], 1, 0))
+        p.edit(mod(i), module_src(i, imps[i], 1, 0))
     p.run(force=True)
     good = snapshot_outputs(p)
     files = [f for f in p.cache_files() if '/proj/' in '/' + f]
@@ -203,13 +206,13 @@ def replay(ctx: Ctx, data: dict) -> int:
     proj_dir = os.path.join(scratch_cwd(), 'c05_replay')
     p = cli.Project(proj_dir, output_dirs=['./out'], cache_enabled=data.get('cache_enabled', True))
     for i in range(n):
-        p.edit('m%d' % i, module_src(i, imps[i], 0, 0))
+        p.edit(mod(i), module_src(i, imps[i], 0, 0))
     warm = cold = None
     for i in range(n):
-        p.edit('m%d' % i, module_src(i, imps[i], 0, 0), step=0)
+        p.edit(mod(i), module_src(i, imps[i], 0, 0), step=0)
     for op in data['history']:
         if op[0] == 'edit':
-            p.edit('m%d' % op[1], module_src(op[1], imps[op[1]], op[2], 0), step=op[3] if len(op) > 3 else None)
+            p.edit(mod(op[1]), module_src(op[1], imps[op[1]], op[2], 0), step=op[3] if len(op) > 3 else None)
         elif op[0] == 'clear':
             shutil.rmtree(os.path.join(proj_dir, '.cache'), ignore_errors=True)
         else:
